@@ -17,8 +17,8 @@ import (
 )
 
 type Verifier struct {
-	avpDefs []avpDef
-	avpErrs []string
+	avpDefs        []avpDef
+	avpErrs        []string
 	repo           string
 	fset           *token.FileSet
 	prog           *ssa.Program
@@ -529,7 +529,6 @@ func (ex *Exec) frameObligations(fr *Frame, r retInfo, targets []modTarget, c *C
 		ex.oblige(fr, "frame", n, fr.fn.Pos(), r.pc, goal, c.Props)
 	}
 }
-
 
 // frameGoal: component n (now) equals its entry value (was) at every object that existed at entry
 // (id < next0) and is not a modifies target
